@@ -164,6 +164,20 @@ fn composites(ctx: &mut Ctx) {
                     Ok((Err(e), _)) => ctx.violation("composite.sparse.load", format!("sparse vector whose high part keeps supports {:03b} failed to load ({}) on {}", keep, e, m.describe())),
                     Err(p) => ctx.violation("composite.sparse.load!panic", format!("{} on {}", p, m.describe())),
                 }
+                // The same file as the body of an optional structure, followed by a sentinel.
+                let mut opt: Vec<u8> = ((rewritten.len() / 8) as u64).to_le_bytes().to_vec();
+                opt.extend_from_slice(&rewritten);
+                opt.extend_from_slice(&0x5E47_1AE1u64.to_le_bytes());
+                ctx.checks += 1;
+                match guard(|| { let mut r: &[u8] = &opt; let v = Option::<SparseVector>::load(&mut r); let next = u64::load(&mut r).ok(); (v, next) }) {
+                    Ok((Ok(Some(loaded)), next)) => {
+                        if loaded != sv { ctx.violation("composite.option_sparse.ne", format!("Option<SparseVector> loaded from a file whose high part keeps supports {:03b} is not == to the original on {}", keep, m.describe())); }
+                        if next != Some(0x5E47_1AE1u64) { ctx.violation("composite.option_sparse.consumed", format!("after Option<SparseVector> (supports {:03b}) the next element read is {:?}", keep, next)); }
+                    },
+                    Ok((Ok(None), _)) => ctx.violation("composite.option_sparse.none", format!("Option<SparseVector> with a present body (supports {:03b}) loaded as None", keep)),
+                    Ok((Err(e), _)) => ctx.violation("composite.option_sparse.load", format!("Option<SparseVector> whose high part keeps supports {:03b} failed to load ({}) on {}", keep, e, m.describe())),
+                    Err(p) => ctx.violation("composite.option_sparse.load!panic", format!("{} on {}", p, m.describe())),
+                }
             }
         }
         // Wavelet matrix and core: every level without supports / with a random subset per level.
@@ -201,6 +215,19 @@ fn composites(ctx: &mut Ctx) {
                 },
                 Ok((Err(e), _)) => ctx.violation("composite.wm.load", format!("wavelet matrix with support variant {} failed to load: {}", variant, e)),
                 Err(p) => ctx.violation("composite.wm.load!panic", p),
+            }
+            let mut opt: Vec<u8> = ((wm_re.len() / 8) as u64).to_le_bytes().to_vec();
+            opt.extend_from_slice(&wm_re);
+            opt.extend_from_slice(&0x5E47_1AE1u64.to_le_bytes());
+            ctx.checks += 1;
+            match guard(|| { let mut r: &[u8] = &opt; let x = Option::<WaveletMatrix>::load(&mut r); let next = u64::load(&mut r).ok(); (x, next) }) {
+                Ok((Ok(Some(loaded)), next)) => {
+                    if loaded != wm { ctx.violation("composite.option_wm.ne", format!("Option<WaveletMatrix> loaded from a file with support variant {} is not == to the original", variant)); }
+                    if next != Some(0x5E47_1AE1u64) { ctx.violation("composite.option_wm.consumed", format!("after Option<WaveletMatrix> (variant {}) the next element read is {:?}", variant, next)); }
+                },
+                Ok((Ok(None), _)) => ctx.violation("composite.option_wm.none", format!("Option<WaveletMatrix> with a present body (variant {}) loaded as None", variant)),
+                Ok((Err(e), _)) => ctx.violation("composite.option_wm.load", format!("Option<WaveletMatrix> with support variant {} failed to load: {}", variant, e)),
+                Err(p) => ctx.violation("composite.option_wm.load!panic", p),
             }
             match guard(|| { let mut r: &[u8] = &core_re; WMCore::load(&mut r) }) {
                 Ok(Ok(loaded)) => {
